@@ -560,6 +560,7 @@ def wave8_rules(ctx):
     if fs:
         f = fs[0]
         scope = FnScope(f.node, [])
+        scope_box = [scope]
         bad, n_ = [], 0
 
         def classify(e_, at, depth=0):
@@ -584,16 +585,49 @@ def wave8_rules(ctx):
                     return b_
                 return classify(tail(e_["then"]), at, depth + 1) and classify(tail(e_["else"]), at, depth + 1)
             if k_ == "match":
-                return all(classify(a_["body"], at, depth + 1) for a_ in e_["arms"])
+                return all(sir.is_panic_node(a_["body"]) or classify(a_["body"], at, depth + 1) for a_ in e_["arms"])
             if k_ == "block" and e_["stmts"]:
                 l_ = e_["stmts"][-1]
                 return classify(l_["e"] if l_.get("k") == "expr" else l_, at, depth + 1)
             if k_ == "path" and len(e_["segs"]) == 1 and depth < 6:
-                r = scope.resolve(e_["segs"][0], at)
+                r = scope_box[0].resolve(e_["segs"][0], at)
                 if r is None:
                     return False
                 if r[0] == "let" and r[1] is not None and not r[2]:
                     return classify(r[1], r[3], depth + 1)
+                if r[0] == "param":
+                    # a parameter of a private helper of the printer: every call site hands it an accepted value
+                    fn_node = r[3]
+                    pnames = [(p_.get("pat") or {}).get("name") for p_ in fn_node.get("params", []) if not p_.get("self")]
+                    if e_["segs"][0] in pnames:
+                        pi = pnames.index(e_["segs"][0])
+                        sites = []
+                        for g2 in sir.reach(tc, f):
+                            for c_ in sir.walk(g2.body):
+                                if c_.get("k") == "call" and sir.call_name(c_) == fn_node.get("name") and len(c_["args"]) > pi:
+                                    sites.append((g2, c_))
+                        if sites and depth < 4:
+                            res = []
+                            for g2, c_ in sites:
+                                saved = scope_box[0]
+                                scope_box[0] = scope if g2 is f else FnScope(g2.node, [])
+                                res.append(classify(c_["args"][pi], c_, depth + 1))
+                                scope_box[0] = saved
+                            return all(res)
+                    return False
+                if r[0] == "for" and r[1] is not None:
+                    # an element of a local array of tuples: `for (sep, loc, x) in [("?", a, b), (":", c, d)]`
+                    src = sir.strip_ref(r[1])
+                    while src.get("k") == "mcall" and src["m"] in ("iter", "into_iter"):
+                        src = sir.strip_ref(src["recv"])
+                    if src.get("k") == "path" and len(src["segs"]) == 1:
+                        r2 = scope_box[0].resolve(src["segs"][0], r[3])
+                        if r2 and r2[0] == "let" and r2[1] is not None:
+                            src = sir.strip_ref(r2[1])
+                    idxs = [p_ for p_ in r[2] if p_.isdigit()]
+                    if src.get("k") == "array" and src["elems"] and len(idxs) == 1:
+                        i_ = int(idxs[0])
+                        return all(el.get("k") == "tuple" and len(el["elems"]) > i_ and classify(el["elems"][i_], at, depth + 1) for el in src["elems"])
                 if r[0] in ("match", "let", "for"):
                     path = r[2]
                     variant = [p_[1:] for p_ in path if p_.startswith("@")]
@@ -601,14 +635,15 @@ def wave8_rules(ctx):
                     return bool(variant and field) and (variant[-1], field[-1]) in OK_FIELDS
             return False
         for g in sir.reach(tc, f):
+            if g.module[:2] != ["stringify", "expr"]:
+                continue   # the Stringifier's own token writers (scope names, quoted names) are covered by C14.scope / C14.escape
             sc_ = scope if g is f else FnScope(g.node, [])
             for n in sir.walk(g.body):
                 if n.get("k") == "mcall" and n["m"] == "write_token" and n["args"]:
                     n_ += 1
-                    scope_saved = scope
-                    scope = sc_
+                    scope_box[0] = sc_
                     ok_ = classify(n["args"][0], n)
-                    scope = scope_saved
+                    scope_box[0] = scope
                     if not ok_:
                         bad.append("%s: `%s`" % (g.name, sir.expr_str(n["args"][0])[:40]))
         obs.append(ob("C14.escape/sinks/expr-tokens", not bad and n_ >= 20, ctx.where(f), "%d tokens written by the expression printer are constants, literal-writer output or validated identifiers" % n_ if not bad else "written as a token without going through a literal writer: %s" % bad[:3],
